@@ -742,6 +742,59 @@ class Walker:
                 out[dst * esz:(dst + nlast) * esz] = raw[src * esz:(src + nlast) * esz]
         return bytes(out), info
 
+    def link_msg(self, d, where):
+        if len(d) < 3 or d[0] != 1:
+            raise SpecError("%s: link message version" % where)
+        fl = d[1]
+        if fl & ~0x1F:
+            raise SpecError("%s: link message flags %#x" % (where, fl))
+        p = 2
+        ltype = 0
+        if fl & 8:
+            ltype = d[p]; p += 1
+        if fl & 4:
+            p += 8
+        if fl & 16:
+            if d[p] > 1:
+                raise SpecError("%s: link name character set %d" % (where, d[p]))
+            p += 1
+        w = 1 << (fl & 3)
+        nl = int.from_bytes(d[p:p + w], "little"); p += w
+        name = bytes(d[p:p + nl]); p += nl
+        if len(name) != nl or nl == 0:
+            raise SpecError("%s: link name length %d exceeds the message" % (where, nl))
+        if ltype == 0:
+            val = int.from_bytes(d[p:p + self.O], "little"); p += self.O
+            kind = "hard"
+        elif ltype == 1:
+            vl = int.from_bytes(d[p:p + 2], "little"); p += 2
+            val = bytes(d[p:p + vl]); p += vl
+            if len(val) != vl:
+                raise SpecError("%s: soft link value length %d exceeds the message" % (where, vl))
+            kind = "soft"
+        elif ltype == 64:
+            vl = int.from_bytes(d[p:p + 2], "little")
+            raw = bytes(d[p + 2:p + 2 + vl])
+            kind = "external"
+            if len(raw) == vl and p + 2 + vl == len(d) and vl >= 3 and raw[0] == 0 and raw[-1] == 0 and raw.count(b"\x00") == 3:
+                fn, op = raw[1:-1].split(b"\x00")
+                val = (fn, op)
+                p += 2 + vl
+            else:
+                # tolerated private layout: u16 length + file name, u16 length + object path
+                q = p + 2 + vl
+                pl = int.from_bytes(d[q:q + 2], "little")
+                if len(raw) != vl or q + 2 + pl != len(d):
+                    raise SpecError("%s: external link value %r is not (length, version/flags 0, file name NUL, object path NUL)" % (where, bytes(d[p:p + 40])))
+                self.deviate("extlink-value-layout", where, "external link information is (u16 length, file name, u16 length, object path); the specification stores a 2-byte total length, a version/flags byte and two NUL-terminated strings")
+                val = (raw, bytes(d[q + 2:q + 2 + pl]))
+                p = q + 2 + pl
+        else:
+            raise Unsupported("%s: link type %d" % (where, ltype))
+        if p != len(d):
+            raise SpecError("%s: link message has %d bytes, its fields need %d" % (where, len(d), p))
+        return dict(name=name, kind=kind, value=val)
+
     # -- global heap, variable-length elements
     def gcol(self, addr, owner):
         if not hasattr(self, "gcols"):
@@ -1191,7 +1244,7 @@ class Walker:
             node["kind"] = "linkobject" if 0x02 not in by else "group"
             if 0x02 not in by:
                 self.deviate("softlink-stored-as-object", "%s@%d" % (owner, addr), "an object header holding only Link message(s) without a Link Info message; soft/external links are link messages of the containing group")
-                node["links"] = [bytes(x) for x in by[0x06]]
+                node["links"] = [self.link_msg(x, owner) for x in by[0x06]]
             else:
                 raise Unsupported("new-style group")
         elif 0x08 in by:
